@@ -38,6 +38,7 @@ fn main() {
             std::process::exit(2)
         }
     };
+    watch_property(id);
     if args.len() >= 3 && args[1] == "--replay" {
         std::process::exit(replay_file(def, &args[2]));
     }
@@ -64,10 +65,17 @@ fn main() {
     if let Ok(rd) = std::fs::read_dir(&rdir) {
         let mut files: Vec<_> = rd.filter_map(|e| e.ok()).map(|e| e.path()).filter(|p| p.extension().map(|x| x == "json").unwrap_or(false)).collect();
         files.sort();
+        let cur: std::sync::Arc<std::sync::Mutex<serde_json::Value>> = std::sync::Arc::new(std::sync::Mutex::new(serde_json::Value::Null));
+        let cur2 = cur.clone();
+        let wg = watch_register("regress", Box::new(move || cur2.lock().map(|g| g.clone()).unwrap_or(serde_json::Value::Null)));
         for f in files {
             regress_n += 1;
             match load_replay(&f.to_string_lossy()) {
                 Ok((campaign, case, _)) => {
+                    if let Ok(mut g) = cur.lock() {
+                        *g = json!({"regression_file": f.to_string_lossy(), "campaign": campaign, "case": case});
+                    }
+                    wg.0.seq.fetch_add(1, std::sync::atomic::Ordering::Relaxed);
                     let r = guard(|| (def.replay)(&campaign, &case));
                     let fail = match r {
                         Ok(Ok(())) => None,
@@ -89,6 +97,7 @@ fn main() {
             }
         }
     }
+    watch_main();
     let mut main_run = (def.run)(&cfg);
     main_run.failures.extend(run.failures);
     main_run.inconclusive.extend(run.inconclusive);
@@ -156,14 +165,18 @@ fn replay_file(def: &props::PropDef, path: &str) -> i32 {
             return 2;
         }
     };
+    // the replayed case runs under the hang watch as well (a saved hang must end, not hang the replay)
+    let shown = case.clone();
+    let wg = watch_register(&campaign, Box::new(move || shown.clone()));
+    wg.0.seq.fetch_add(1, std::sync::atomic::Ordering::Relaxed);
     match guard(|| (def.replay)(&campaign, &case)) {
         Ok(Ok(())) => {
             println!("[{}] replay {} passes", def.id, path);
             0
         }
         Ok(Err(f)) => {
-            if f.message.starts_with(INCONCLUSIVE) {
-                eprintln!("[{}] replay inconclusive: {}", def.id, f.message);
+            if f.message.starts_with(INCONCLUSIVE) || f.check == "bad-replay" {
+                eprintln!("[{}] replay inconclusive: {} {}", def.id, f.check, f.message);
                 return 2;
             }
             eprintln!("[{}] {} / {}: {}", def.id, campaign, f.check, f.message);
